@@ -75,19 +75,45 @@ static int do_replay(int argc, char **argv) {
     std::ifstream f(argv[2]);
     if (!f) { fprintf(stderr, "cannot open %s\n", argv[2]); return 2; }
     std::stringstream ss; ss << f.rdbuf();
-    Plan p; std::string err;
-    if (!plan_from_text(ss.str(), p, err)) { fprintf(stderr, "bad plan: %s\n", err.c_str()); return 2; }
-    EventLog log; log.keep_text = true;
-    RunStats stats;
+    // a replay file holds one plan, or a chain of plans executed one after the other in this process
+    // (separator line "=== plan"): process-global library state carries over between them
+    std::vector<std::string> texts;
+    {
+        std::string cur, line;
+        std::istringstream in(ss.str());
+        while (std::getline(in, line)) {
+            if (line.compare(0, 8, "=== plan") == 0) { texts.push_back(cur); cur.clear(); continue; }
+            cur += line + "\n";
+        }
+        texts.push_back(cur);
+    }
     Progress *pg = map_progress(prog);
-    pg->run = p.run; pg->sub = p.sub; pg->step = -1; pg->judged = 0; pg->phase = 2;
-    RunResult rr = run_plan(p, log, stats, pg);
-    pg->phase = 0;
-    if (verbose) for (auto &l : log.lines) printf("LOG %s\n", oneline(l).c_str());
-    printf("HASH %016llx events %llu\n", (unsigned long long)log.hash, (unsigned long long)log.count);
-    if (rr.outcome.kind == Outcome::VIOLATION) { printf("RESULT violation %s step %d\t%s\n", rr.outcome.oracle.c_str(), rr.outcome.step, oneline(rr.outcome.msg).c_str()); fflush(stdout); return 1; }
-    if (rr.outcome.kind == Outcome::DISCARD) { printf("RESULT discard step %d\t%s\n", rr.outcome.step, oneline(rr.outcome.msg).c_str()); fflush(stdout); return 3; }
-    printf("RESULT ok subcount %lld\n", (long long)rr.subcount);
+    uint64_t chain_hash = 0;
+    uint64_t events = 0;
+    for (size_t k = 0; k < texts.size(); k++) {
+        Plan p; std::string err;
+        if (!plan_from_text(texts[k], p, err)) { fprintf(stderr, "bad plan %zu: %s\n", k, err.c_str()); return 2; }
+        EventLog log; log.keep_text = true;
+        RunStats stats;
+        pg->run = p.run; pg->sub = p.sub; pg->step = -1; pg->judged = 0; pg->phase = 2;
+        RunResult rr = run_plan(p, log, stats, pg);
+        pg->phase = 0;
+        chain_hash = texts.size() == 1 ? log.hash : mix64(chain_hash, log.hash);
+        events += log.count;
+        if (verbose) { if (texts.size() > 1) printf("LOG --- plan %zu of %zu\n", k + 1, texts.size()); for (auto &l : log.lines) printf("LOG %s\n", oneline(l).c_str()); }
+        bool last = k + 1 == texts.size();
+        if (rr.outcome.kind == Outcome::VIOLATION) {
+            printf("HASH %016llx events %llu\n", (unsigned long long)chain_hash, (unsigned long long)events);
+            printf("RESULT violation %s step %d\t%s%s\n", rr.outcome.oracle.c_str(), rr.outcome.step, oneline(rr.outcome.msg).c_str(), texts.size() > 1 ? (" [plan " + std::to_string(k + 1) + " of a chain of " + std::to_string(texts.size()) + " executed in one process]").c_str() : "");
+            fflush(stdout);
+            return 1;
+        }
+        if (last) {
+            printf("HASH %016llx events %llu\n", (unsigned long long)chain_hash, (unsigned long long)events);
+            if (rr.outcome.kind == Outcome::DISCARD) { printf("RESULT discard step %d\t%s\n", rr.outcome.step, oneline(rr.outcome.msg).c_str()); fflush(stdout); return 3; }
+            printf("RESULT ok subcount %lld\n", (long long)rr.subcount);
+        }
+    }
     fflush(stdout);
     return 0;
 }
@@ -143,6 +169,7 @@ static int do_batch(int argc, char **argv) {
         fflush(stdout);
     };
     double last_ckpt = 0;
+    std::vector<int64_t> recent;  // runs this process has executed so far (for chain replays of cross-run state)
     for (int64_t n = 0; n < count; n++) {
         int64_t i = first + n * stride;
         if (elapsed() > budget) break;
@@ -166,7 +193,9 @@ static int do_batch(int argc, char **argv) {
             if (sub == -1) subcount = rr.subcount;
             if (rr.outcome.kind == Outcome::VIOLATION) {
                 violations++;
-                printf("V %lld %lld %s step %d\t%s\n", (long long)i, (long long)sub, rr.outcome.oracle.c_str(), rr.outcome.step, oneline(rr.outcome.msg).c_str());
+                std::string prev;
+                for (size_t k = recent.size() > 48 ? recent.size() - 48 : 0; k < recent.size(); k++) prev += (prev.empty() ? "" : ",") + std::to_string(recent[k]);
+                printf("V %lld %lld %s step %d\t%s\tprev=%s\n", (long long)i, (long long)sub, rr.outcome.oracle.c_str(), rr.outcome.step, oneline(rr.outcome.msg).c_str(), prev.c_str());
                 fflush(stdout);
             } else if (rr.outcome.kind == Outcome::DISCARD) {
                 discards++;
@@ -186,6 +215,7 @@ static int do_batch(int argc, char **argv) {
             if (elapsed() > budget * 1.5 + 5) break;
         }
         runs++;
+        recent.push_back(i);
         done_upto = i;
         if (elapsed() - last_ckpt > 0.25) { last_ckpt = elapsed(); emit("CHECKPOINT", false); }
     }
